@@ -43,8 +43,15 @@ class Multiline:
             "Inconsistent values for header tag {} found\n".format(tagname)+
             "Previous definition: {}\n".format(prev)+
             "Current definition: {}".format(value))
+      # the new value is added (and checked) before the array is stored,
+      # so that a refused value leaves the previous one as it was
       prev = gfapy.FieldArray(self.get_datatype(tagname), [prev])
+      if self.vlevel > 1:
+        prev._vpush(value, datatype, tagname)
+      else:
+        prev.append(value)
       self._set_existing_field(tagname, prev)
+      return
     if self.vlevel > 1:
       prev._vpush(value, datatype, tagname)
     else:
@@ -122,8 +129,14 @@ class Multiline:
     """
     for of in gfa_line.tagnames:
       self._check_mergeable(of, gfa_line.get(of), gfa_line.get_datatype(of))
-    for of in gfa_line.tagnames:
-      self.add(of, gfa_line.get(of), gfa_line.get_datatype(of))
+    saved = self._save_tags()
+    try:
+      for of in gfa_line.tagnames:
+        self.add(of, gfa_line.get(of), gfa_line.get_datatype(of))
+    except:
+      # all tags of the line are merged or none
+      self._restore_tags(saved)
+      raise
     return self
 
   def _check_mergeable(self, tagname, value, datatype):
